@@ -153,6 +153,7 @@ func ExecSched(sc sim.Script) *sim.Outcome {
 	}
 	nt := len(s.Tasks)
 	hist := make([][]porcupine.Operation, nt)
+	counts := make([][]int, nt)             // per task: results of GetChangeCount
 	missingSeen := make([]string, nt)       // per task: a complaint about nodes reported absent on a store that lost none
 	opCount := make([]map[string]int64, nt) // per task: which operations ran (merged into the stats after the run)
 	fns := make([]func(), nt)
@@ -219,6 +220,9 @@ func ExecSched(sc sim.Script) *sim.Outcome {
 					t.mpt.Validate()
 					t.mpt.GetNodeDB()
 					t.mpt.GetVersion()
+				case "count":
+					record = false
+					counts[ti] = append(counts[ti], t.mpt.GetChangeCount())
 				case "changes":
 					record = false
 					t.mpt.GetChanges()
@@ -313,6 +317,25 @@ func ExecSched(sc sim.Script) *sim.Outcome {
 		// the -race build decides only the race / panic / deadlock clauses
 		return finishSched(w, res)
 	}
+	if s.CountJudge && !lossy {
+		// GetChangeCount is atomic: it reports the number of collected changes of a state between two writes. The
+		// set of such numbers is computed by executing every order of every combination of prefixes of the tasks'
+		// writes sequentially on a fresh copy of the set-up (a superset of what real-time order allows).
+		allowed := w.sequentialChangeCounts(s)
+		for ti, cs := range counts {
+			for _, c := range cs {
+				if !allowed[c] && w.v == nil {
+					var as []int
+					for a := range allowed {
+						as = append(as, a)
+					}
+					sort.Ints(as)
+					w.fail("c16.atomic", "change-count-of-no-sequential-state", "task %d: GetChangeCount returned %d; sequential executions of the tasks' writes only ever show %v", ti, c, as)
+				}
+			}
+		}
+		w.stats.Inc("check.change-count")
+	}
 	var all []porcupine.Operation
 	nmut := 0
 	for ti, h := range hist {
@@ -381,6 +404,52 @@ func ExecSched(sc sim.Script) *sim.Outcome {
 		}
 	}
 	return finishSched(w, res)
+}
+
+// sequentialChangeCounts: GetChangeCount after every sequential execution of any interleaving of prefixes of the
+// tasks' Insert/Delete operations, each on a fresh copy of the set-up.
+func (w *world) sequentialChangeCounts(s *TreeScript) map[int]bool {
+	var writes [][]Op
+	for _, t := range s.Tasks {
+		var ws []Op
+		for _, op := range t {
+			if op.K == "ins" || op.K == "del" {
+				ws = append(ws, op)
+			}
+		}
+		writes = append(writes, ws)
+	}
+	allowed := map[int]bool{}
+	pos := make([]int, len(writes))
+	var path []Op
+	var rec func()
+	rec = func() {
+		w2 := newWorld(s)
+		for _, op := range s.Ops {
+			w2.apply(op)
+		}
+		t2 := w2.tries[0]
+		for _, op := range path {
+			if op.K == "ins" {
+				t2.mpt.Insert(util.Path(op.P), val(op.V))
+			} else {
+				t2.mpt.Delete(util.Path(op.P))
+			}
+		}
+		allowed[t2.mpt.GetChangeCount()] = true
+		w2.close()
+		for ti := range writes {
+			if pos[ti] < len(writes[ti]) {
+				path = append(path, writes[ti][pos[ti]])
+				pos[ti]++
+				rec()
+				pos[ti]--
+				path = path[:len(path)-1]
+			}
+		}
+	}
+	rec()
+	return allowed
 }
 
 // orderedDB is a memory node store whose Iterate visits the nodes in key order.
